@@ -443,6 +443,22 @@ def analyse(ctx, repo, clsname, eps_mode):
                 dom_seen[("violated", c_.lineno, "objective values are compared with a tolerance (%s, relative %g, absolute %g): two solutions whose values in that objective differ by much more than "
                           "rounding error count as tied there, so a solution that is strictly better in exactly that objective is no longer reported as dominating (and 'tied within a "
                           "tolerance' is not transitive, so neither is the relation)" % (text(c_)[:80], relv, absv))] = c_
+    # the sign of a PRODUCT of two objective-magnitude quantities: a float product underflows to (-)0.0 when the factors are
+    # small (|a*b| < 5e-324), so `a * b < 0` is False for a = -1e-200, b = 1e-200 although a < 0 < b: "each side is better
+    # somewhere" is then missed and one side is named as dominating.  Factors that went through a comparison, a bool or
+    # sign() are +-1 / 0 / 1 and cannot underflow: they are not magnitudes.
+    mag = _magnitude_names(fn, (client.p, client.q))
+    for c_ in ast.walk(fn):
+        if isinstance(c_, ast.Compare) and len(c_.ops) == 1 and isinstance(c_.ops[0], (ast.Lt, ast.Gt, ast.LtE, ast.GtE, ast.Eq, ast.NotEq)):
+            l_, r_ = c_.left, c_.comparators[0]
+            for prod, other in ((l_, r_), (r_, l_)):
+                if isinstance(prod, ast.BinOp) and isinstance(prod.op, ast.Mult) and is_const(other) and const_value(other) in (0, 0.0) \
+                        and not isinstance(const_value(other), bool) \
+                        and _is_magnitude(prod.left, mag, (client.p, client.q)) and _is_magnitude(prod.right, mag, (client.p, client.q)):
+                    dom_seen[("violated", c_.lineno, "the verdict branches on the sign of a product of two objective-derived magnitudes (`%s`): the float product underflows to zero "
+                              "when both factors are small (a = -1e-200, b = 1e-200 give a * b = -0.0, and -0.0 < 0.0 is False), so a pair in which each side is "
+                              "strictly better in one objective by a tiny amount (word <>) is not recognised as incomparable and one side is reported as dominating; "
+                              "dominance may look at objective values through comparisons only" % text(c_)[:80])] = c_
     if unsupported:
         for (k, ln, msg), node in dom_seen.items():
             if k == "violated":
@@ -483,6 +499,63 @@ def analyse(ctx, repo, clsname, eps_mode):
                   % (states, transitions, n_out, "; all-'=' word names a loser" if eps_mode else ""), key="automaton")
     ctx.sample({"construct": C, "table_excerpt": dict(list(ctx.extra["decision_tables"][C].items())[:6])})
     return states, transitions
+
+
+_MAG_PASS = {"abs", "min", "max", "sum", "float", "fabs", "absolute", "amin", "amax", "subtract", "array", "asarray", "minimum", "maximum"}
+
+
+def _is_magnitude(e, mag, roots):
+    """Is `e` a float quantity whose size follows the objective values (an element of p / q, or sums, differences, products,
+    quotients, abs / min / max of such)?  Anything that went through a comparison, floor / round / int / sign is not."""
+    if isinstance(e, ast.Name):
+        return e.id in mag
+    if isinstance(e, ast.Subscript):
+        return access_path(e.value) in roots or _is_magnitude(e.value, mag, roots)
+    if isinstance(e, ast.BinOp) and isinstance(e.op, (ast.Add, ast.Sub, ast.Mult, ast.Div)):
+        return _is_magnitude(e.left, mag, roots) or _is_magnitude(e.right, mag, roots)
+    if isinstance(e, ast.UnaryOp) and isinstance(e.op, (ast.USub, ast.UAdd)):
+        return _is_magnitude(e.operand, mag, roots)
+    if isinstance(e, ast.IfExp):
+        return _is_magnitude(e.body, mag, roots) or _is_magnitude(e.orelse, mag, roots)
+    if isinstance(e, ast.Call) and (access_path(e.func) or "").split(".")[-1] in _MAG_PASS:
+        return any(_is_magnitude(a, mag, roots) for a in e.args)
+    return False
+
+
+def _magnitude_names(fn, roots):
+    """Local names that are bound, somewhere in fn, to an objective magnitude (flow-insensitive least fixpoint)."""
+    mag = set()
+    changed = True
+    while changed:
+        changed = False
+        for st in ast.walk(fn):
+            pairs = []
+            if isinstance(st, ast.Assign):
+                pairs = [(t, st.value) for t in st.targets]
+            elif isinstance(st, ast.AugAssign) and isinstance(st.op, (ast.Add, ast.Sub, ast.Mult, ast.Div)):
+                pairs = [(st.target, st.value)]
+            elif isinstance(st, (ast.For, ast.comprehension)):
+                it = st.iter
+                srcs = [it]
+                if isinstance(it, ast.Call) and access_path(it.func) in ("zip", "enumerate"):
+                    srcs = list(it.args)
+                elems = [ast.Subscript(value=s, slice=ast.Constant(0), ctx=ast.Load()) for s in srcs
+                         if access_path(s) in roots or (isinstance(s, ast.Subscript) and access_path(s.value) in roots)]
+                if elems:
+                    tg = st.target
+                    names = [n for n in ast.walk(tg) if isinstance(n, ast.Name)]
+                    if isinstance(it, ast.Call) and access_path(it.func) == "enumerate" and isinstance(tg, ast.Tuple) and len(tg.elts) == 2:
+                        names = [n for n in ast.walk(tg.elts[1]) if isinstance(n, ast.Name)]
+                    for n in names:
+                        if n.id not in mag:
+                            mag.add(n.id)
+                            changed = True
+                continue
+            for t, v in pairs:
+                if isinstance(t, ast.Name) and t.id not in mag and _is_magnitude(v, mag, roots):
+                    mag.add(t.id)
+                    changed = True
+    return mag
 
 
 def _signed_count(fn):
